@@ -34,6 +34,10 @@ CHECKNAMES == TRUE
 (* named deviations (C13): TRUE = the repaired behaviour                                            *)
 CHECKDERIVE == TRUE      \* a copyable / cloneable type whose by-value field (of an emitted type) is not, is an error
 CHECKEMPTYENUM == TRUE   \* an enum without cases is an error (`repr(int)` needs one)
+(* named deviation (C05/C10): FALSE = what the code does: of several impl blocks of one type only the last *)
+(* counts, and an impl block that names no type of its module is dropped silently; TRUE = the repaired     *)
+(* behaviour: the functions of all blocks count, in source order; an orphan block is an error              *)
+CHECKIMPLS == FALSE
 
 ResNone == [k |-> "none"]
 NoVftRes == [has |-> FALSE, funcs |-> <<>>, baseField |-> "", ty |-> TNone]
